@@ -32,15 +32,23 @@ def handleClean (j : Json) (op : String) : Json :=
         let arr := items.toArray
         if outIdx.any (fun i => i ≥ arr.size) then err "bad-args" else
         let out := outIdx.filterMap (fun i => arr[i]?)
-        let grp := fun (rel : Item Int → Item Int → Bool) =>
-          Json.arr ((checkGroups rel kg items out).map (fun (r : Int × Bool × String) =>
+        let grpCore := fun (rel : Item Int → Item Int → Bool) =>
+          Json.arr ((checkGroupsCore rel kg items out).map (fun (r : Int × Bool × String) =>
             Json.mkObj [("group", (r.1 : Json)), ("ok", Json.bool r.2.1), ("clause", Json.str r.2.2)])).toArray
-        Json.mkObj [("ok", Json.bool (checkClean d kg items out)), ("clause", Json.str (checkCleanClause d kg items out)),
-                    ("ok_le", Json.bool (checkCleanLe d kg items out)),
-                    ("clause_le", Json.str (checkCleanClauseR (closerLe d) kg items out)),
-                    ("independent", Json.bool (checkIndependent (closer d) kg items out)),
-                    ("independent_le", Json.bool (checkIndependent (closerLe d) kg items out)),
-                    ("groups", grp (closer d)), ("groups_le", grp (closerLe d))]
+        -- `ok_core*` / `independent_core*`: the order-free checker (spec verdict, theorems checkCleanCore_iff,
+        -- checkCleanCoreLe_iff, checkIndependentCore_spec, checkIndependentCoreLe_sound); `in_order`: groupsInOrder_iff;
+        -- `ok`: the full checker (checkClean_iff) = ok_core && in_order
+        let okCore := checkCleanCoreR (closer d) kg items out
+        let inOrder := groupsInOrder items out
+        Json.mkObj [("ok", Json.bool (okCore && inOrder)), ("clause", Json.str (checkCleanClause d kg items out)),
+                    ("ok_core", Json.bool okCore),
+                    ("clause_core", Json.str (checkCleanCoreClauseR (closer d) kg items out)),
+                    ("ok_core_le", Json.bool (checkCleanCoreR (closerLe d) kg items out)),
+                    ("clause_core_le", Json.str (checkCleanCoreClauseR (closerLe d) kg items out)),
+                    ("in_order", Json.bool inOrder),
+                    ("independent_core", Json.bool (checkIndependentCore (closer d) kg items out)),
+                    ("independent_core_le", Json.bool (checkIndependentCore (closerLe d) kg items out)),
+                    ("groups_core", grpCore (closer d))]
       | none => err "bad-args"
     | _ => err "bad-op"
   | _, _, _, _ => err "bad-args"
